@@ -3,6 +3,6 @@
 patch=$1; shift
 cd /repo && git apply "$patch" || exit 2
 cd /verif
-for p in "$@"; do bin/govc check $p 2>&1 | grep -v "^note" | tail -4; echo "exit=$?"; done
+for p in "$@"; do bin/govc check $p 2>&1 | grep -v "^note" | tail -7; echo "exit=$?"; done
 git -C /repo checkout -- . 
 git -C /repo status --short | head -3
